@@ -92,7 +92,17 @@ def gen_docs(rng, n, big=False):
         for k in range(nx):
             kind = rng.randrange(8)
             if kind == 0:
-                v = Str(bytes(rng.randrange(256) for _ in range(rng.choice([0, 1, 5, 30]))))
+                if rng.random() < 0.5:
+                    v = Str(bytes(rng.randrange(256) for _ in range(rng.choice([0, 1, 5, 30]))))
+                else:
+                    # literal-form strings (mostly ASCII) with the rare escapes: control characters that need octal escapes
+                    # directly followed by digits, DEL, C1 bytes, Latin-1, named escapes, parentheses, backslashes
+                    base = bytearray(rng.choice(b"abcXYZ 0123456789") for _ in range(rng.choice([12, 30, 60])))
+                    for _ in range(rng.choice([1, 2, 3])):
+                        pos = rng.randrange(len(base))
+                        base[pos:pos + 1] = bytes([rng.choice([0x18, 0x19, 0x1a, 0x1b, 0x1c, 0x1d, 0x1e, 0x1f, 0x7f, 0x80, 0x9f, 0xa0, 0xff, 8, 9, 10, 12, 13, 40, 41, 92])]) \
+                            + bytes([rng.choice(b"0123456789a")])
+                    v = Str(bytes(base))
             elif kind == 1:
                 v = [rng.randint(-5, 70000), Real(rng.choice(["1.5", "-0.25", "3.", ".5", "0.0", "100.000"])), True, False, None]
             elif kind == 2:
